@@ -20,7 +20,7 @@ from .. import cover, emmon, gen, ref, world
 LEVEL = 'exploration'
 JOBS = {'quick': 4, 'thorough': 16}
 REQUIRED_MONITORS = ('em_shape_contract', 'locality', 'retained_results')
-REQUIRED_CLASSES = ('deformation:none-or-one-ulp', 'deformation:small', 'deformation:large', 'displaced:anchor', 'displaced:frame-neighbour',
+REQUIRED_CLASSES = ('reference:two-atoms-bond-length-changed', 'reference:one-atom', 'scale:zero', 'scale:two', 'deformation:none-or-one-ulp', 'deformation:small', 'deformation:large', 'displaced:anchor', 'displaced:frame-neighbour',
                     'displaced:other', 'displacement:small', 'displacement:far', 'embedded:extrapolate',
                     'geometry:generic', 'geometry:partial-collinear', 'geometry:linear-z', 'argument:same-object-mutated-in-place',
                     'argument:fresh-copy')
@@ -62,11 +62,42 @@ def cases(ctx):
         yield {'kind': 'emb', 'i': i}
 
 
+def small_reference(ctx, rng, case, K):
+    """References of two atoms (and of one): the anchor is the first atom; in a new conformation the two atoms are
+    somewhere else AND at another distance from each other.  Every mapped atom still lies at s times its construction
+    distance from the anchor (the shape contract on the call judges that)."""
+    from gaddlemaps import ExchangeMap
+    n = 2 if case['batch'] % 4 else 1
+    edges = [(0, 1)] if n == 2 else []
+    pos = rng.normal(size=(n, 3))
+    if n == 2:
+        pos[1] = pos[0] + rng.normal(size=3) * 0.2 + 0.1
+    tpos = emmon.gen_target(rng, pos, emmon.PLACEMENT[int(rng.integers(0, 4))], mmax=30)
+    s = emmon.gen_scale(rng, emmon.SCALES[int(rng.integers(0, 3))])
+    refm, tgtm = emmon.build_pair(rng, edges, pos, tpos)
+    np.random.seed(int(rng.integers(0, 2 ** 31 - 1)))
+    try:
+        emap = ExchangeMap(refm, tgtm, s)
+        for c in range(K):
+            conf = pos @ gen.random_rotation(rng).T + rng.normal(size=3) * 3
+            if n == 2:
+                u = conf[1] - conf[0]
+                conf[1] = conf[0] + u * float(rng.choice([0.5, 0.8, 1.3, 2.5]))      # bond compressed / stretched
+            emap(emmon.with_positions(refm, conf))                                      # shape contract fires here
+            ctx.count('evaluations')
+            ctx.hit('reference:two-atoms-bond-length-changed' if n == 2 else 'reference:one-atom')
+    except Exception as exc:  # noqa
+        ctx.violation(f'map-raises:{type(exc).__name__}', str(exc)[:200], witness={'ref': pos, 'target': tpos, 's': s})
+
+
 def run_gen(ctx, case):
     from gaddlemaps import ExchangeMap
     rng = ctx.rng('gen', case['batch'])
     K = 5 if ctx.tier == 'quick' else 10
     for it in range(10):
+        if it == 3:
+            small_reference(ctx, rng, case, K)
+            continue
         geometry = emmon.GEOMETRY[int(rng.integers(0, len(emmon.GEOMETRY)))]
         edges, pos, info = emmon.gen_reference(rng, geometry, nmax=25)
         n = len(pos)
@@ -76,6 +107,11 @@ def run_gen(ctx, case):
         tpos = emmon.gen_target(rng, pos, emmon.PLACEMENT[int(rng.integers(0, 4))], mmax=40)
         scls = emmon.SCALES[int(rng.integers(0, 3))]
         s = emmon.gen_scale(rng, scls)
+        if it == 7:
+            # the end of the range: every mapped atom on its anchor (s = 0), or twice as far (s = 2)
+            s = [0.0, 2.0][case['batch'] % 2]
+            scls = 'end-of-range'
+            ctx.hit('scale:zero' if s == 0.0 else 'scale:two')
         refm, tgtm = emmon.build_pair(rng, edges, pos, tpos)
         emap = ExchangeMap(refm, tgtm, s)
         model = emap.__dict__['_gmv_model']
